@@ -26,6 +26,31 @@ CODECS = {
 }
 
 
+def count_write_kinds(it):
+    """Writes of FileIterator.count in next(): (+1 steps, `= file_entries.len()` terminal assignments, anything else) as block lists."""
+    tb = TermBuilder(it)
+    steps, terminal, other = [], [], []
+    for bb in it.reachable():
+        for st in it.stmts(bb):
+            if st["k"] == "assign" and st["lhs"]["l"] == 1 and [p.get("n") for p in st["lhs"]["p"] if isinstance(p, dict) and "n" in p] == ["count"]:
+                r = render(tb.term(st["rv"]["o"])) if st["rv"]["r"] == "use" else "?"
+                is_step = False
+                if st["rv"]["r"] == "use":
+                    for lf in it.origins(st["rv"]["o"], passthrough={}):
+                        if lf["kind"] == "bin" and lf["stmt"]["rv"]["op"] in ("AddWithOverflow", "Add", "AddUnchecked"):
+                            a_, b_ = lf["stmt"]["rv"]["a"], lf["stmt"]["rv"]["b"]
+                            pa = op_place(a_)
+                            if const_int(b_) == 1 and pa is not None and pa["l"] == 1 and [p.get("n") for p in pa["p"] if isinstance(p, dict) and "n" in p] == ["count"]:
+                                is_step = True
+                if is_step:
+                    steps.append(bb)
+                elif r == "std::vec::Vec::<T, A>::len(self.file_entries)":
+                    terminal.append(bb)
+                else:
+                    other.append(bb)
+    return steps, terminal, other
+
+
 def dom_sorted(b, calls):
     return sorted(calls, key=lambda c: (len(b.dominators().get(c.bb, ())), c.bb))
 
@@ -110,8 +135,10 @@ def run(f, fixture, rep, cfg, tier):
                 if st["k"] == "assign" and st["lhs"]["l"] == 1 and [p.get("n") for p in st["lhs"]["p"] if isinstance(p, dict) and "n" in p] == ["count"]:
                     cw.append(bb)
         in_loop = [bb for bb in cw if any(bb in blks for (_h, blks) in it.loops())]
-        rep.check(len(cw) == 1 and not in_loop, "R1", "count|single-step", "FileIterator advances its position once per entry",
-                  "FileIterator::next writes self.count at %d places (%d inside a loop): positions are skipped or repeated" % (len(cw), len(in_loop)), it.span)
+        # a write is either the single step (+1) or the terminal assignment `count = file_entries.len()` that ends the iteration
+        steps, terminal, other = count_write_kinds(it)
+        rep.check(len(steps) == 1 and not other and not in_loop, "R1", "count|single-step", "FileIterator advances its position once per entry",
+                  "FileIterator::next writes self.count at %d places (%d steps, %d neither step nor end-of-iteration, %d inside a loop): positions are skipped or repeated" % (len(cw), len(steps), len(other), len(in_loop)), it.span)
         fin = [c for c in it.calls() if c.decl.endswith("payload::Reader::<R>::finish")]
         rep.check(len(fin) == 1, "R1", "finish", "the entry is finished (padding skipped) before the next one", "FileIterator::next calls finish() %d times" % len(fin), it.span)
 
